@@ -10,6 +10,8 @@ import NurbsVerif.Lemmas.ConfigEvalCoded
 import NurbsVerif.Lemmas.FitParams
 import NurbsVerif.Lemmas.KnotRangeFoldOps
 import NurbsVerif.Lemmas.KnotRangeFoldDecomp
+import NurbsVerif.Lemmas.KnotRangeFoldDecompE
+import NurbsVerif.Lemmas.DecompE
 import NurbsVerif.Lemmas.KnotRangeFoldWitness
 
 /-!
@@ -31,7 +33,8 @@ import NurbsVerif.Lemmas.KnotRangeFoldWitness
   identical pieces;
 * … all directions at once: `insertKnot`, `removeKnot`, `refineKnotvector` (the folds over the directions, any subset
   requested) on the shape with EVERY knot vector mapped (`Shape.affineKvs S a b`: direction `d` by `x ↦ a d·x + b d`)
-  return the mapped result; `decomposeDir` / `decomposeUV` return identical pieces (as soon as one split happens);
+  return the mapped result; `decomposeDirE` / `decomposeUVE` (decomposition with the exceptions of the code, what the
+  driver runs) answer the same: both raise or both return identical pieces (as soon as there is an interior knot);
 * the binary span search returns (never runs out of fuel) on the whole domain, for tolerances `0 < tol < 1/2` (the
   range on which the model's start index is the code's `int(round((low+high)/2 + tol))`).
 
@@ -515,36 +518,62 @@ theorem split_all_directions_affine_knots (S : Shape K) (a b : ℕ → K) (dir :
     splitDir (S.affineKvs a b) dir (a dir * u + b dir) (a dir * tol) = splitDir S dir u tol :=
   splitDir_affineKvs S a b dir u tol ha hp hn
 
+/-- degree 2 over `[0,0,0,0,1,1,1]`, 4 points: valid for the setter, first "interior" knot on the domain start -/
+def c17EdgeCrv : Shape ℚ :=
+  { rat := false, degs := [2], kvs := [[0,0,0,0,1,1,1]], sizes := [4], net := [[0,0],[1,2],[3,1],[4,4]] }
+
 /-- **Bézier decomposition along one direction** (`decompose_curve`, one direction of `decompose_surface`; model
-    `decomposeDir`: split at the first interior knot `U[p+1 : -(p+1)][0]`, go on with the second piece), SAME tolerance
-    on both sides (after the first split both sides work on the identical normalised remainder, so a scaled tolerance
-    would be wrong there).  Hypothesis `hsep` is about the first interior knot only (if there is one): every knot of
-    the direction is equal to it or further than `tol` away in both ranges.  Conclusion: the lists of pieces are
-    IDENTICAL – or no split happens on either side (no fuel, no interior knot, split rejected) and each side returns
-    its own object untouched (not normalised, hence not equal). -/
+    `decomposeDirE` – what the driver op `decomp` runs: split at the first interior knot `U[p+1 : -(p+1)][0]`, go on with
+    the second piece, `none` = the implementation raises: the split is rejected because that knot lies on a domain end
+    or is repeated more than `p` times), SAME tolerance on both sides (after the first split both sides work on the
+    identical normalised remainder, so a scaled tolerance would be wrong there).  Hypothesis `hsep` is about the first
+    interior knot only (if there is one): every knot of the direction is equal to it or further than `tol` away in
+    both ranges.  Conclusion: both sides ANSWER THE SAME – both raise (`none`; a rejected first split is an exception on
+    both sides, it is NOT "nothing to split") or both return the identical list of pieces – or nothing is split on
+    either side because there is no fuel or no interior knot (third conjunct), and each side returns its own object
+    untouched (not normalised, hence not equal). -/
 theorem decompose_affine_knots (a b : ℕ → K) (ha : ∀ d, 0 < a d) (dir : ℕ) (tol : K) (htol : 0 ≤ tol)
     (fuel : ℕ) (S : Shape K)
     (hp : S.deg dir < (S.kv dir).length) (hn : S.size dir < (S.kv dir).length)
     (hsep : ∀ knot, (((S.kv dir).drop (S.deg dir + 1)).take ((S.kv dir).length - 2 * (S.deg dir + 1))).head? = some knot →
       ∀ y ∈ S.kv dir, knot = y ∨ (tol < |knot - y| ∧ tol < a dir * |knot - y|)) :
-    decomposeDir dir tol fuel (S.affineKvs a b) = decomposeDir dir tol fuel S
-      ∨ (decomposeDir dir tol fuel (S.affineKvs a b) = [S.affineKvs a b] ∧ decomposeDir dir tol fuel S = [S]) :=
-  decomposeDir_affineKvs_fixed_tol a b ha dir tol htol fuel S hp hn hsep
+    decomposeDirE dir tol fuel (S.affineKvs a b) = decomposeDirE dir tol fuel S
+      ∨ (decomposeDirE dir tol fuel (S.affineKvs a b) = some [S.affineKvs a b]
+          ∧ decomposeDirE dir tol fuel S = some [S]
+          ∧ (fuel = 0 ∨ ((S.kv dir).drop (S.deg dir + 1)).take ((S.kv dir).length - 2 * (S.deg dir + 1)) = [])) :=
+  decomposeDirE_affineKvs_fixed_tol a b ha dir tol htol fuel S hp hn hsep
 
-/-- … when the first split does happen (fuel left, an interior knot `knot`, split accepted) the pieces are identical. -/
+/-- … when there is fuel and an interior knot `knot`, both sides answer the same: both raise (the split at `knot` is
+    rejected, or a later one is) or both return the identical pieces.  With `hsplit` (the first split is accepted by
+    the code) and no exception later, the common answer is `some` list of at least two pieces
+    (`decompose_affine_knots_when_split_pieces`). -/
 theorem decompose_affine_knots_when_split (a b : ℕ → K) (ha : ∀ d, 0 < a d) (dir : ℕ) (tol : K) (htol : 0 ≤ tol)
     (fuel : ℕ) (S : Shape K)
     (hp : S.deg dir < (S.kv dir).length) (hn : S.size dir < (S.kv dir).length) (knot : K) (rest : List K)
     (hI : ((S.kv dir).drop (S.deg dir + 1)).take ((S.kv dir).length - 2 * (S.deg dir + 1)) = knot :: rest)
-    (hsplit : (splitDir S dir knot tol).isSome = true)
     (hsep : ∀ y ∈ S.kv dir, knot = y ∨ (tol < |knot - y| ∧ tol < a dir * |knot - y|)) :
-    decomposeDir dir tol (fuel + 1) (S.affineKvs a b) = decomposeDir dir tol (fuel + 1) S :=
-  decomposeDir_affineKvs_of_split a b ha dir tol fuel S hp hn knot rest hI hsplit
+    decomposeDirE dir tol (fuel + 1) (S.affineKvs a b) = decomposeDirE dir tol (fuel + 1) S :=
+  decomposeDirE_affineKvs_of_interior a b ha dir tol fuel S hp hn knot rest hI
     (findMultiplicity_affine_sep knot (S.kv dir) tol (a dir) (b dir) (ha dir) htol hsep)
 
-/-- **`decompose_surface(…, decompose_dir='uv')`** (model `decomposeUV`: u direction first, then every strip in v) on
-    the surface with both knot vectors on other ranges, same tolerance: identical list of patches, or no split at all
-    on either side. -/
+/-- … and whenever the code does not raise (`decomposeDirE … = some l`) the common answer is the list of pieces of the
+    plain model `decomposeDir` that the C07 theorems describe. -/
+theorem decompose_affine_knots_when_split_pieces (a b : ℕ → K) (ha : ∀ d, 0 < a d) (dir : ℕ) (tol : K) (htol : 0 ≤ tol)
+    (fuel : ℕ) (S : Shape K)
+    (hp : S.deg dir < (S.kv dir).length) (hn : S.size dir < (S.kv dir).length) (knot : K) (rest : List K)
+    (hI : ((S.kv dir).drop (S.deg dir + 1)).take ((S.kv dir).length - 2 * (S.deg dir + 1)) = knot :: rest)
+    (hsep : ∀ y ∈ S.kv dir, knot = y ∨ (tol < |knot - y| ∧ tol < a dir * |knot - y|))
+    (l : List (Shape K)) (hl : decomposeDirE dir tol (fuel + 1) S = some l) :
+    decomposeDirE dir tol (fuel + 1) (S.affineKvs a b) = some l
+      ∧ decomposeDir dir tol (fuel + 1) (S.affineKvs a b) = l ∧ decomposeDir dir tol (fuel + 1) S = l := by
+  have h := decomposeDirE_affineKvs_of_interior a b ha dir tol fuel S hp hn knot rest hI
+    (findMultiplicity_affine_sep knot (S.kv dir) tol (a dir) (b dir) (ha dir) htol hsep)
+  exact ⟨h.trans hl, decomposeDirE_some dir tol _ _ l (h.trans hl), decomposeDirE_some dir tol _ _ l hl⟩
+
+/-- **`decompose_surface(…, decompose_dir='uv')`** (model `decomposeUVE` – what the driver op `decomp … uv` runs: u
+    direction first, then every strip in v; `none` = the implementation raises) on the surface with both knot vectors
+    on other ranges, same tolerance: both sides answer the same (both raise, or the identical list of patches), or
+    neither direction has an interior knot and each side returns its own surface. -/
 theorem decompose_uv_affine_knots (a b : ℕ → K) (ha : ∀ d, 0 < a d) (tol : K) (htol : 0 ≤ tol) (S : Shape K)
     (hp0 : S.deg 0 < (S.kv 0).length) (hn0 : S.size 0 < (S.kv 0).length)
     (hp1 : S.deg 1 < (S.kv 1).length) (hn1 : S.size 1 < (S.kv 1).length)
@@ -552,20 +581,53 @@ theorem decompose_uv_affine_knots (a b : ℕ → K) (ha : ∀ d, 0 < a d) (tol :
       ∀ y ∈ S.kv 0, knot = y ∨ (tol < |knot - y| ∧ tol < a 0 * |knot - y|))
     (hsep1 : ∀ knot, (((S.kv 1).drop (S.deg 1 + 1)).take ((S.kv 1).length - 2 * (S.deg 1 + 1))).head? = some knot →
       ∀ y ∈ S.kv 1, knot = y ∨ (tol < |knot - y| ∧ tol < a 1 * |knot - y|)) :
-    decomposeUV tol (S.affineKvs a b) = decomposeUV tol S
-      ∨ (decomposeUV tol (S.affineKvs a b) = [S.affineKvs a b] ∧ decomposeUV tol S = [S]) :=
-  decomposeUV_affineKvs_fixed_tol a b ha tol htol S hp0 hn0 hp1 hn1 hsep0 hsep1
+    decomposeUVE tol (S.affineKvs a b) = decomposeUVE tol S
+      ∨ (decomposeUVE tol (S.affineKvs a b) = some [S.affineKvs a b] ∧ decomposeUVE tol S = some [S]
+          ∧ ((S.kv 0).drop (S.deg 0 + 1)).take ((S.kv 0).length - 2 * (S.deg 0 + 1)) = []
+          ∧ ((S.kv 1).drop (S.deg 1 + 1)).take ((S.kv 1).length - 2 * (S.deg 1 + 1)) = []) :=
+  decomposeUVE_affineKvs_fixed_tol a b ha tol htol S hp0 hn0 hp1 hn1 hsep0 hsep1
 
-/-- … when the u direction does split, the patches are identical and the range of the v direction plays no role (no
-    hypothesis about it: the strips are normalised in both directions before they are split in v). -/
+/-- … when the u direction has an interior knot, both sides answer the same (both raise, or identical patches) and the
+    range of the v direction plays no role (no hypothesis about it: the strips are normalised in both directions
+    before they are split in v). -/
 theorem decompose_uv_affine_knots_when_split (a b : ℕ → K) (ha : ∀ d, 0 < a d) (tol : K) (htol : 0 ≤ tol) (S : Shape K)
     (hp0 : S.deg 0 < (S.kv 0).length) (hn0 : S.size 0 < (S.kv 0).length) (knot : K) (rest : List K)
     (hI : ((S.kv 0).drop (S.deg 0 + 1)).take ((S.kv 0).length - 2 * (S.deg 0 + 1)) = knot :: rest)
-    (hsplit : (splitDir S 0 knot tol).isSome = true)
     (hsep : ∀ y ∈ S.kv 0, knot = y ∨ (tol < |knot - y| ∧ tol < a 0 * |knot - y|)) :
-    decomposeUV tol (S.affineKvs a b) = decomposeUV tol S :=
-  decomposeUV_affineKvs_of_split a b ha tol S hp0 hn0 knot rest hI hsplit
+    decomposeUVE tol (S.affineKvs a b) = decomposeUVE tol S :=
+  decomposeUVE_affineKvs_of_interior a b ha tol S hp0 hn0 knot rest hI
     (findMultiplicity_affine_sep knot (S.kv 0) tol (a 0) (b 0) (ha 0) htol hsep)
+
+/-- **the rejected first split is an exception on both knot ranges** (audit-4 H1): the curve of degree 2 over
+    `[0,0,0,0,1,1,1]` (accepted by the knot-vector setter; the first knot of `U[p+1 : -(p+1)]` is `U_3 = 0 = U_p`), 4
+    points – `decompose_curve` raises "Cannot split from the domain edge"; `decomposeDirE` answers `none`, on the
+    range `[3, 5]` as well, while the plain `decomposeDir` would return the curve itself. -/
+theorem decompose_rejected_first_split_raises_on_both_ranges :
+    (decomposeDirE 0 (1/100 : ℚ) 7 c17EdgeCrv).isNone = true
+      ∧ (decomposeDirE 0 (1/100 : ℚ) 7 (c17EdgeCrv.affineKvs (fun _ => 2) (fun _ => 3))).isNone = true
+      ∧ (decomposeDir 0 (1/100 : ℚ) 7 c17EdgeCrv).map (·.kvs) = [[[0,0,0,0,1,1,1]]] := by decide +kernel
+
+/-- the hypotheses of `decompose_affine_knots` hold on that curve (`u ↦ 2·u + 3`, tolerance `1/100`): the theorem
+    applies, and what it says there is "both raise" -/
+example : decomposeDirE 0 (1/100) 7 (c17EdgeCrv.affineKvs (fun _ => 2) (fun _ => 3)) = decomposeDirE 0 (1/100) 7 c17EdgeCrv := by
+  rcases decompose_affine_knots (fun _ => 2) (fun _ => 3) (fun _ => by norm_num) 0 (1/100) (by norm_num) 7 c17EdgeCrv
+    (by decide) (by decide)
+    (by
+      intro knot hk y hy
+      have hk' : knot = 0 := by
+        have : (((c17EdgeCrv.kv 0).drop (c17EdgeCrv.deg 0 + 1)).take
+            ((c17EdgeCrv.kv 0).length - 2 * (c17EdgeCrv.deg 0 + 1))).head? = some (0:ℚ) := by decide +kernel
+        rw [this] at hk; exact (Option.some.inj hk).symm
+      subst hk'
+      have : y = 0 ∨ y = 1 := by
+        simp [c17EdgeCrv, Shape.kv] at hy; rcases hy with h | h <;> simp [h]
+      rcases this with rfl | rfl
+      · left; rfl
+      · right; constructor <;> norm_num) with h | ⟨_, h, _⟩
+  · exact h
+  · exact absurd h (by
+      have := decompose_rejected_first_split_raises_on_both_ranges.1
+      intro h'; rw [h'] at this; cases this)
 
 /-! #### the hypotheses are satisfiable: a degree 2 × 1 surface (4 × 3 points), `u ↦ 2·u + 3`, `v ↦ 3·v − 1`
     (`Lemmas/KnotRangeFoldWitness.lean`) -/
@@ -631,11 +693,12 @@ example : (refineKnotvector krSurf [1, 1] (1/100)).2 = true
     ∧ (refineKnotvector krSurf [1, 1] (1/100)).1.sizes = [9, 5] := by decide +kernel
 
 /-- `decompose_surface` in both directions: 2 × 2 Bézier patches, identical from both knot ranges -/
-example : decomposeUV (1/100) (krSurf.affineKvs krA krB) = decomposeUV (1/100) krSurf :=
+example : decomposeUVE (1/100) (krSurf.affineKvs krA krB) = decomposeUVE (1/100) krSurf :=
   decompose_uv_affine_knots_when_split krA krB (fun d => by unfold krA; split <;> norm_num) (1/100) (by norm_num) krSurf
-    (by decide) (by decide) 1 [] (by decide +kernel) (by decide +kernel) (by decide +kernel)
+    (by decide) (by decide) 1 [] (by decide +kernel) (by decide +kernel)
 
-example : (decomposeUV (1/100) krSurf).length = 4 ∧ krSurf.affineKvs krA krB ≠ krSurf := by
+/-- … the code does not raise here: 4 patches -/
+example : (decomposeUVE (1/100) krSurf).map List.length = some 4 ∧ krSurf.affineKvs krA krB ≠ krSurf := by
   refine ⟨by decide +kernel, fun h => ?_⟩
   have : (krSurf.affineKvs krA krB).kvs = krSurf.kvs := by rw [h]
   revert this
